@@ -45,6 +45,11 @@ mod app_options;
 )]
 pub mod ffi;
 
+// verification harness (hook H4), only with RUSTFLAGS="--cfg dnp3_verif"
+#[cfg(dnp3_verif)]
+#[path = "/verif/harness_ffi/mod.rs"]
+pub mod verif;
+
 lazy_static::lazy_static! {
     static ref VERSION: std::ffi::CString = std::ffi::CString::new(dnp3::VERSION).unwrap();
 }
